@@ -60,6 +60,10 @@ def cases(tier, seed):
         ga = [1e-4, 1e-6, 1e-7][i % 3]
         cs.append({'gen': 'div', 'form': 'elementwise_divide', 'N': N, 'Rx': gens.rank_profile(rng, d, 'rand', 3), 'Rz': gens.rank_profile(rng, d, 'rand', 2), 'eps': ga * ga * rng.choice((3.0, 30.0)),
                    'prec': 'c' if i % 4 == 1 else None, 'start': True, 'start_near': ga, 'scalar': 1.0, 'vseed': rng.randrange(2 ** 40), 'sidx': 0})
+    # an interior singleton mode between two halves that each carry more than 50 entries (the bond left of the singleton mode can only grow through the enrichment)
+    for i in range(2 if not T else 6):
+        cs.append({'gen': 'div', 'form': ['x/y', 'elementwise_divide', 's/y'][i % 3], 'N': [[9, 9, 1, 9, 9], [8, 10, 1, 1, 9, 9]][i % 2], 'Rx': [[1, 2, 2, 2, 2, 1], [1, 2, 2, 2, 2, 2, 1]][i % 2],
+                   'Rz': [[1, 3, 3, 3, 3, 1], [1, 3, 3, 3, 3, 3, 1]][i % 2], 'eps': 1e-12, 'prec': None, 'start': False, 'scalar': 2.0, 'vseed': 6161 + i, 'sidx': 0, 'zrange': 3.0})
     # degenerate but legitimate inputs: zero numerator (0/y, 0.0/y, zeros/y) and an all-zero starting tensor
     for i in range(12 if not T else 120):
         d = rng.choice([2, 3, 4])
